@@ -1,5 +1,6 @@
 import Txtpp.Lemmas.PathNameFacts
 import Txtpp.Lemmas.SeenClosure
+import Txtpp.Lemmas.Hermetic
 /-!
 # Property C11 — exactly the requested sources are processed and outputs are named correctly
 
@@ -46,6 +47,12 @@ theorem lookalikes_not_txtpp :
 files): the coordinator never processes a file that is not reachable from an input -/
 theorem processed_within_closure (w : Coord.World) (inputs : List Coord.File) (s : Coord.St) (h : Coord.Reach w inputs s) :
     ∀ f ∈ s.seen, ∃ i ∈ inputs, Coord.Path w.deps i f := Coord.seen_reachable w inputs s h
+
+/-- exactly: at a successful exit (build / verify) the set of files that got a final pass is the
+dependency closure of the input files (named and scanned), no more and no less -/
+theorem processed_set_eq_closure (w : Coord.World) (inputs : List Coord.File) (s : Coord.St) (h : Coord.Reach w inputs s)
+    (hq : s.pool = []) (hno : ¬ Coord.Leftover s) (f : Coord.File) :
+    f ∈ s.dm.fin ↔ ∃ i ∈ inputs, Coord.Path w.deps i f := Coord.success_fin_eq_closure w inputs s h hq hno f
 
 /-- … and at a successful exit it is all of it that was seen, each finished exactly once -/
 theorem processed_once_each (w : Coord.World) (inputs : List Coord.File) (s : Coord.St) (h : Coord.Reach w inputs s) :
